@@ -1,8 +1,13 @@
 /-
 C19 — driver: replays an implementation trace through the model (correspondence) and the spec (monitor).
 
-cfg:  n=<instances> keys=<distinct keys>      instance i uses key "k{i % keys}", model id "id{i}"
+cfg:  n=<instances> keys=<distinct keys> [lazy=<m>]   instance i uses key "k{i % keys}", model id "id{i}"; the last
+                          m instances are constructed by `new <i>` in the middle of the history
 ops:  ft <ms> | acquire <i> | release <i> | setexpire <i> <seconds> | ids
+      acquirectx <i> | releasectx <i>    the same calls entered through AcquireCtx / ReleaseCtx (same model step)
+      mass <m>            m further NewRedisLock calls: ids pairwise distinct? => <distinct|dup> len=<16|other> <store>
+      new <i>             NewRedisLock of a lazy instance => distinct len=16 <store> | dup <store>
+                          (the model's instance i has `seconds = 0` until its own SetExpire: nothing is inherited)
       race <i> <j> …      concurrent Acquire calls of distinct instances (real goroutines)
       scriptflush         Redis drops its script cache (next script run: EVALSHA→NOSCRIPT, then EVAL)
       down | up           miniredis answers every command with an error / normally again
@@ -50,6 +55,8 @@ inductive DOp where
   | scriptflush
   | inj (p : Nat) (outer : Op) (inner : List Op)
   | lost (outer : Op)
+  | new (i : Nat)
+  | mass (m : Nat)
   deriving Repr
 
 def parseInst (n : Nat) (s : String) : Option Nat := do
@@ -60,12 +67,16 @@ def parseSimple (n : Nat) : List String → Option Op
   | ["ft", ms] => do pure (.ft (← ms.toNat?))
   | ["acquire", i] => do pure (.acquire (← parseInst n i))
   | ["release", i] => do pure (.release (← parseInst n i))
+  | ["acquirectx", i] => do pure (.acquire (← parseInst n i))
+  | ["releasectx", i] => do pure (.release (← parseInst n i))
   | ["setexpire", i, s] => do pure (.setExpire (← parseInst n i) (← s.toInt?))
   | _ => none
 
 def parseCall (n : Nat) : List String → Option Op
   | ["acquire", i] => do pure (.acquire (← parseInst n i))
   | ["release", i] => do pure (.release (← parseInst n i))
+  | ["acquirectx", i] => do pure (.acquire (← parseInst n i))
+  | ["releasectx", i] => do pure (.release (← parseInst n i))
   | _ => none
 
 /-- split a token list at `;` -/
@@ -85,6 +96,12 @@ def parseOp (n : Nat) : List String → Option DOp
   | ["ft", ms] => do pure (.op (.ft (← ms.toNat?)))
   | ["acquire", i] => do pure (.op (.acquire (← parseInst n i)))
   | ["release", i] => do pure (.op (.release (← parseInst n i)))
+  | ["acquirectx", i] => do pure (.op (.acquire (← parseInst n i)))
+  | ["releasectx", i] => do pure (.op (.release (← parseInst n i)))
+  | ["new", i] => do pure (.new (← parseInst n i))
+  | ["mass", m] => do
+    let m ← m.toNat?
+    if 1 ≤ m ∧ m ≤ 100000 then pure (.mass m) else none
   | ["setexpire", i, s] => do pure (.op (.setExpire (← parseInst n i) (← s.toInt?)))
   | ["ids"] => some .ids
   | ["down"] => some .down
@@ -141,12 +158,14 @@ def branchOf (cfg : Nat → LockCfg) (st : St) (won : List Nat) : Op → List St
     (if exps.any (fun x => now + ms = x + 1) then ["ft-1ms-after-expiry"] else []) ++
     (if exps.any (fun x => now + ms ≥ x) then ["ft-expires-a-lease"] else [])
   | .acquire i | .acquireS i _ =>
-    match st.store.live (cfg i).key with
+    (match st.store.live (cfg i).key with
     | some e => if e.val = (cfg i).id then ["acquire-own-refresh"] else ["acquire-held-by-other"]
     | none =>
       match st.store.ent (cfg i).key with
       | some e => if e.val = (cfg i).id then ["acquire-free-after-own-expiry"] else ["acquire-free-after-other-expired"]
-      | none => ["acquire-free"]
+      | none => ["acquire-free"]) ++
+    (if leaseMs (st.secs i) ≥ 4294967296 then ["acquire-lease-ms-beyond-uint32"]
+     else if leaseMs (st.secs i) ≥ 2147483648 then ["acquire-lease-ms-beyond-int32"] else [])
   | .release i =>
     match st.store.live (cfg i).key with
     | some e =>
@@ -157,7 +176,9 @@ def branchOf (cfg : Nat → LockCfg) (st : St) (won : List Nat) : Op → List St
       | some e => if e.val = (cfg i).id then ["release-late-own-lease-expired-key-free"] else ["release-key-free"]
       | none => ["release-key-free"]
   | .setExpire _ s =>
-    if s < 0 ∨ s ≥ 4294967296 then ["setexpire-wraps-uint32"] else if s = 0 then ["setexpire-0"] else ["setexpire"]
+    (if s < 0 ∨ s ≥ 4294967296 then ["setexpire-wraps-uint32"] else if s = 0 then ["setexpire-0"] else ["setexpire"]) ++
+    (if [0, 1, 65535, 65536, 2147483, 2147484, 4294967, 4294968, 2147483647, 2147483648, 4294967295].contains s
+       then [s!"setexpire-boundary-{s}"] else [])
 
 def resTok : Op → Bool → String
   | .ft _, _ => "ok"
@@ -170,6 +191,7 @@ structure DSt where
   bel  : Spec.Belief := Spec.Belief.none   -- beliefs from the implementation's results
   won  : List Nat := []   -- instances that acquired successfully at least once (coverage only)
   down : Bool := false
+  made : List Nat := []   -- lazy instances constructed so far (`new`)
 
 structure Ctx where
   n     : Nat
@@ -521,8 +543,9 @@ def wonTok (l : List Nat) : String :=
 def runSection (r : Report) (s : Section) : Report := Id.run do
   let n := kvNat s.cfg "n" 0
   let nkeys := kvNat s.cfg "keys" 0
+  let lazy := kvNat s.cfg "lazy" 0
   let mut r := r
-  if n = 0 ∨ nkeys = 0 then
+  if n = 0 ∨ nkeys = 0 ∨ lazy > n then
     return r.mismatch s.idx 0 "bad-cfg" (joinSp s.cfg)
   let cfg := mkCfg nkeys
   let keys := keyNames nkeys
@@ -531,6 +554,8 @@ def runSection (r : Report) (s : Section) : Report := Id.run do
     let impl := joinSp l.obs
     let c : Ctx := { n := n, nkeys := nkeys, cfg := cfg, keys := keys, sec := s.idx, line := l.idx,
                      opTxt := joinSp l.op, impl := impl }
+    if l.op.any (fun t => t = "acquirectx") then r := r.addCover "entry-AcquireCtx-direct"
+    if l.op.any (fun t => t = "releasectx") then r := r.addCover "entry-ReleaseCtx-direct"
     match parseOp n l.op with
     | none => r := r.mismatch s.idx l.idx "bad-op" (joinSp l.op)
     | some .ids =>
@@ -540,6 +565,37 @@ def runSection (r : Report) (s : Section) : Report := Id.run do
         r := r.mismatch s.idx l.idx "distinct len=16" impl
         if impl = "dup" then
           r := r.violation s.idx l.idx "two RedisLock instances got the same id: they can hold the key at the same time"
+    | some (.mass m) =>
+      r := { r with ops := r.ops + 1 }
+      r := r.addCover "ids-mass"
+      match l.obs with
+      | res :: shape :: dump =>
+        if res = "dup" then
+          r := r.violation s.idx l.idx s!"two RedisLock instances got the same id (among {m} instances constructed on one key): they can hold the key at the same time op=[{joinSp l.op}]"
+        if shape ≠ "len=16" then r := r.addCover "mass-id-not-16-alphanumerics"
+        let (r', d') := checkOps c r d [] dump (fun _ => "distinct len=16")
+        r := r'; d := d'
+      | _ => r := r.mismatch s.idx l.idx "distinct len=16 <store>" impl
+    | some (.new i) =>
+      r := { r with ops := r.ops + 1 }
+      r := r.addCover "new-instance-mid-history"
+      if i + lazy < n ∨ d.made.contains i then
+        r := r.mismatch s.idx l.idx "bad-op" impl
+      else
+        if (List.range n).any (fun j => j ≠ i ∧ d.st.secs j ≠ 0) then r := r.addCover "new-after-setexpire-on-another-instance"
+        if (List.range n).any (fun j => j ≠ i ∧ (cfg j).key = (cfg i).key ∧ decide (holds cfg d.st j)) then
+          r := r.addCover "new-while-another-instance-holds-its-key"
+        match l.obs with
+        | "dup" :: dump =>
+          r := r.violation s.idx l.idx s!"two RedisLock instances got the same id: instance {i}, constructed in the middle of the history, carries the id of an existing instance — both can hold the key at the same time op=[{joinSp l.op}]"
+          let (r', d') := checkOps c r d [] dump (fun _ => "distinct len=16")
+          r := r'; d := { d' with made := i :: d.made }
+        | "distinct" :: ln :: dump =>
+          -- the store must be untouched by a construction; the instance's `seconds` is 0 in model and spec
+          let (r', d') := checkOps c r d [] dump (fun _ => s!"distinct len=16")
+          r := r'; d := { d' with made := i :: d.made }
+          if ln ≠ "len=16" then r := r.addCover "new-id-not-16-chars"
+        | _ => r := r.mismatch s.idx l.idx "distinct len=16 <store>" impl
     | some .down =>
       r := { r with ops := r.ops + 1 }
       r := r.addCover "down"
